@@ -201,6 +201,7 @@ func c02Gen(c *Ctx) {
 	ptrToPtrKeepsNull(c)
 	decoderUsesNumber(c)
 	layoutAgreement(c)
+	genRound2(c)
 	// an invalid document must not be executed from the cache on its second arrival (C03)
 	c03Cache(c)
 }
